@@ -33,10 +33,11 @@ type fnLoader struct {
 	fset *token.FileSet
 	pkgs map[string]*fnPkg // by directory relative to the repository ("" = root)
 	busy map[string]bool
+	done map[string]*fnDone // the functions printed so far (funcs_interp.go), by fnKey
 }
 
 func newFnLoader(repo string) *fnLoader {
-	return &fnLoader{repo: repo, fset: token.NewFileSet(), pkgs: map[string]*fnPkg{}, busy: map[string]bool{}}
+	return &fnLoader{repo: repo, fset: token.NewFileSet(), pkgs: map[string]*fnPkg{}, busy: map[string]bool{}, done: map[string]*fnDone{}}
 }
 
 // Import implements types.Importer.
